@@ -198,6 +198,18 @@ Proof. unfold filter_referrers. destruct (is_empty a); [reflexivity|apply filter
 
 (* ---------- the client loop against the registry ---------- *)
 
+Lemma NoDup_map_filter {A B} (g : A -> B) (f : A -> bool) l :
+  NoDup (map g l) -> NoDup (map g (filter f l)).
+Proof.
+  induction l as [|x l IH]; simpl; intro H; [constructor|].
+  inversion H as [|? ? Hn Hd]; subst.
+  destruct (f x); simpl; [|now apply IH].
+  constructor; [|now apply IH]. intro Hi. apply Hn.
+  apply in_map_iff in Hi as (y & Ey & Hy). apply filter_In in Hy as [Hy _].
+  apply in_map_iff. now exists y.
+Qed.
+
+
 Lemma firstn_plus {A} (m n : nat) (l : list A) :
   firstn (m + n) l = firstn m l ++ firstn n (skipn m l).
 Proof.
@@ -301,6 +313,7 @@ Section Listing.
   Variable c : cfg.
   Variable cu : cursor.                  (* the registry's continuation: `last` or an opaque token *)
   Variable npath : nat -> str -> str.    (* the path its next links point to *)
+  Variable vis : item -> bool.           (* the entries it shows; pages may be empty although items remain *)
 
   (* the URL the registry's next link of answer i stands for *)
   Definition link_target (i : nat) (rq : url) (x : str) : url :=
@@ -320,16 +333,16 @@ Section Listing.
   Hypothesis Hcu : cursor_ok cu.
 
   Definition view (page : list item) : list item :=
-    match c_kind c with KReferrers => filter_referrers page (c_at c) | _ => page end.
+    match c_kind c with KReferrers => filter_referrers (filter vis page) (c_at c) | _ => filter vis page end.
 
-  Definition serve := reg_serve (c_kind c) cu npath L cap ds render trailer.
+  Definition serve := reg_serve (c_kind c) cu npath vis L cap ds render trailer.
   Definition rest_of (rq : url) := after (cursor_read cu (u_query rq)) L.
   Definition m_of (i : nat) (rq : url) := page_len cap rq (ds i).
   Definition link_query (i : nat) (rq : url) : query :=
     u_query (link_url cu [] (ds i) rq (last_name (firstn (m_of i rq) (rest_of rq)))).
 
   Lemma view_app a b0 : view (a ++ b0) = view a ++ view b0.
-  Proof. unfold view. destruct (c_kind c); try reflexivity. apply filter_referrers_app. Qed.
+  Proof. unfold view. rewrite filter_app. destruct (c_kind c); try reflexivity. apply filter_referrers_app. Qed.
 
   Lemma m_of_pos i rq : (1 <= m_of i rq)%nat.
   Proof. unfold m_of, page_len. lia. Qed.
@@ -530,7 +543,7 @@ Proof. induction pre as [|a pre IH]; simpl; intro H; [exact H|]. inversion H; au
 Theorem listing_exactly_once :
   forall (L : list item) (cap : nat) (ds : nat -> decision)
          (render : nat -> url -> url -> str) (trailer : nat -> str)
-         (resolve : url -> str -> option url) (c : cfg) (cu : cursor) (npath : nat -> str -> str)
+         (resolve : url -> str -> option url) (c : cfg) (cu : cursor) (npath : nat -> str -> str) (vis : item -> bool)
          (path last0 : str) (fuel : nat),
     cursor_ok cu ->
     c_kind c <> KReferrers ->
@@ -541,26 +554,26 @@ Theorem listing_exactly_once :
        resolve base (render i base (link_target ds cu npath i base x)) = Some (link_target ds cu npath i base x)) ->
     (forall i, (Z.of_N (d_doc_len (ds i)) <= eff_limit (c_limit c))%Z) ->
     (length (after last0 L) < fuel)%nat ->
-    let t := loop (reg_serve (c_kind c) cu npath L cap ds render trailer) resolve (fun _ => false) c
+    let t := loop (reg_serve (c_kind c) cu npath vis L cap ds render trailer) resolve (fun _ => false) c
                   fuel 0 0 (mkUrl path []) last0 in
     t_out t = Done /\
-    concat (t_pages t) = after last0 L /\
+    concat (t_pages t) = filter vis (after last0 L) /\
     NoDup (map fst (concat (t_pages t))) /\
     (length (t_reqs t) <= S (length (after last0 L)))%nat.
 Proof.
-  intros L cap ds render trailer resolve c cu npath path last0 fuel Hcu K Hnd Hne Hgt Hres Hfit Hfuel.
+  intros L cap ds render trailer resolve c cu npath vis path last0 fuel Hcu K Hnd Hne Hgt Hres Hfit Hfuel.
   destruct (after_suffix last0 L) as [pre Hpre].
   assert (Hrest : rest_of L cu (mk_request c (mkUrl path []) last0) = after last0 L).
   { unfold rest_of. rewrite start_cursor by (auto; reflexivity). unfold qget_s. rewrite mk_request_last. cbn [u_query qget].
     assert (S : sends_last (c_kind c) = true) by (destruct (c_kind c); try reflexivity; contradiction).
     rewrite S. destruct last0; reflexivity. }
-  destruct (loop_listing L cap ds render trailer resolve c cu npath Hnd Hne Hgt Hres
+  destruct (loop_listing L cap ds render trailer resolve c cu npath vis Hnd Hne Hgt Hres
               ltac:(intro; contradiction) Hcu Hfit fuel 0%nat 0%nat (mkUrl path []) last0 (after last0 L) pre
               Hrest Hpre ltac:(intro; contradiction) Hfuel) as (O & P & R).
-  assert (V : view c (after last0 L) = after last0 L).
+  assert (V : view c vis (after last0 L) = filter vis (after last0 L)).
   { unfold view. destruct (c_kind c); try reflexivity; contradiction. }
   rewrite V in P. unfold serve in *. repeat split; auto.
-  rewrite P. rewrite Hpre in Hnd. rewrite map_app in Hnd. now apply NoDup_suffix in Hnd.
+  rewrite P. apply NoDup_map_filter. rewrite Hpre in Hnd. rewrite map_app in Hnd. now apply NoDup_suffix in Hnd.
 Qed.
 
 Definition referrers_query (a : str) : query := if is_empty a then [] else [(k_at, VS a)].
@@ -570,7 +583,7 @@ Definition referrers_query (a : str) : query := if is_empty a then [] else [(k_a
 Theorem referrers_exactly_once :
   forall (L : list item) (cap : nat) (ds : nat -> decision)
          (render : nat -> url -> url -> str) (trailer : nat -> str)
-         (resolve : url -> str -> option url) (c : cfg) (cu : cursor) (npath : nat -> str -> str)
+         (resolve : url -> str -> option url) (c : cfg) (cu : cursor) (npath : nat -> str -> str) (vis : item -> bool)
          (path : str) (fuel : nat),
     cursor_ok cu ->
     c_kind c = KReferrers ->
@@ -582,13 +595,13 @@ Theorem referrers_exactly_once :
     (forall i, (Z.of_N (d_doc_len (ds i)) <= eff_limit (c_limit c))%Z) ->
     (forall i, qget k_at (d_extra (ds i)) = None) ->
     (length L < fuel)%nat ->
-    let t := loop (reg_serve KReferrers cu npath L cap ds render trailer) resolve (fun _ => false) c
+    let t := loop (reg_serve KReferrers cu npath vis L cap ds render trailer) resolve (fun _ => false) c
                   fuel 0 0 (mkUrl path (referrers_query (c_at c))) [] in
     t_out t = Done /\
-    concat (t_pages t) = filter_referrers L (c_at c) /\
+    concat (t_pages t) = filter_referrers (filter vis L) (c_at c) /\
     (length (t_reqs t) <= S (length L))%nat.
 Proof.
-  intros L cap ds render trailer resolve c cu npath path fuel Hcu K Hnd Hne Hgt Hres Hfit Hex Hfuel.
+  intros L cap ds render trailer resolve c cu npath vis path fuel Hcu K Hnd Hne Hgt Hres Hfit Hex Hfuel.
   assert (Hrest : rest_of L cu (mk_request c (mkUrl path (referrers_query (c_at c))) []) = L).
   { unfold rest_of. rewrite start_cursor by (auto; intros k s E; apply referrers_query_other; rewrite E in Hcu; apply Hcu).
     unfold qget_s. rewrite mk_request_last. rewrite K. cbn [sends_last andb u_query].
@@ -597,7 +610,7 @@ Proof.
                 qget_s k_at (u_query (mk_request c (mkUrl path (referrers_query (c_at c))) [])) = c_at c).
   { intros _. unfold qget_s. rewrite mk_request_at. cbn [u_query]. unfold referrers_query.
     destruct (c_at c) as [|x a]; [reflexivity|]. cbn [is_empty qget]. now rewrite str_eqb_refl. }
-  pose proof (loop_listing L cap ds render trailer resolve c cu npath Hnd Hne Hgt Hres
+  pose proof (loop_listing L cap ds render trailer resolve c cu npath vis Hnd Hne Hgt Hres
               (fun _ => Hex) Hcu Hfit fuel 0%nat 0%nat (mkUrl path (referrers_query (c_at c))) [] L []
               Hrest eq_refl Hat Hfuel) as H.
   unfold serve in H. rewrite K in H. unfold view in H. rewrite K in H. exact H.
@@ -1025,7 +1038,7 @@ Definition start_rest (c : cfg) (last0 : str) (L : list item) : list item :=
 Theorem listing_limit :
   forall (L : list item) (cap : nat) (ds : nat -> decision)
          (render : nat -> url -> url -> str) (trailer : nat -> str)
-         (resolve : url -> str -> option url) (c : cfg) (cu : cursor) (npath : nat -> str -> str)
+         (resolve : url -> str -> option url) (c : cfg) (cu : cursor) (npath : nat -> str -> str) (vis : item -> bool)
          (path last0 : str) (fuel : nat),
     cursor_ok cu ->
     NoDup (map fst L) -> (forall it, In it L -> fst it <> []) ->
@@ -1035,16 +1048,16 @@ Theorem listing_limit :
        resolve base (render i base (link_target ds cu npath i base x)) = Some (link_target ds cu npath i base x)) ->
     (c_kind c = KReferrers -> forall i, qget k_at (d_extra (ds i)) = None) ->
     (length (start_rest c last0 L) < fuel)%nat ->
-    let t := loop (reg_serve (c_kind c) cu npath L cap ds render trailer) resolve (fun _ => false) c
+    let t := loop (reg_serve (c_kind c) cu npath vis L cap ds render trailer) resolve (fun _ => false) c
                   fuel 0 0 (mkUrl path (start_query c)) last0 in
     let fit := fun i => (Z.of_N (d_doc_len (ds i)) <= eff_limit (c_limit c))%Z in
-    (t_out t = Done /\ concat (t_pages t) = view c (start_rest c last0 L) /\
+    (t_out t = Done /\ concat (t_pages t) = view c vis (start_rest c last0 L) /\
      forall j, (j < length (t_reqs t))%nat -> fit j) \/
     (t_out t = ErrDecode /\
-     exists n j, concat (t_pages t) = view c (firstn n (start_rest c last0 L)) /\
+     exists n j, concat (t_pages t) = view c vis (firstn n (start_rest c last0 L)) /\
                  length (t_reqs t) = S j /\ ~ fit j /\ forall j', (j' < j)%nat -> fit j').
 Proof.
-  intros L cap ds render trailer resolve c cu npath path last0 fuel Hcu Hnd Hne Hgt Hres Hex Hfuel.
+  intros L cap ds render trailer resolve c cu npath vis path last0 fuel Hcu Hnd Hne Hgt Hres Hex Hfuel.
   assert (Hsuf : exists pre, L = pre ++ start_rest c last0 L).
   { unfold start_rest. destruct (c_kind c); try apply after_suffix. now exists []. }
   destruct Hsuf as [pre Hpre].
@@ -1061,7 +1074,7 @@ Proof.
                 qget_s k_at (u_query (mk_request c (mkUrl path (start_query c)) last0)) = c_at c).
   { intros K. unfold qget_s, start_query. rewrite mk_request_at. rewrite K. cbn [u_query]. unfold referrers_query.
     destruct (c_at c) as [|x a]; [reflexivity|]. cbn [is_empty qget]. now rewrite str_eqb_refl. }
-  exact (loop_listing_limit L cap ds render trailer resolve c cu npath Hnd Hne Hgt Hres Hex Hcu
+  exact (loop_listing_limit L cap ds render trailer resolve c cu npath vis Hnd Hne Hgt Hres Hex Hcu
            fuel 0%nat 0%nat (mkUrl path (start_query c)) last0 (start_rest c last0 L) pre Hrest Hpre Hat Hfuel).
 Qed.
 
@@ -1096,17 +1109,6 @@ Proof.
         -- intros x [<-|H] Hx Hs; [now left|].
            destruct (list_eq_dec N.eq_dec (fst x) (fst it)) as [Eq|Nq]; [left; now symmetry|].
            right. apply B; auto. intros [Eq|Hs']; [apply Nq; now symmetry|contradiction].
-Qed.
-
-Lemma NoDup_map_filter {A B} (g : A -> B) (f : A -> bool) l :
-  NoDup (map g l) -> NoDup (map g (filter f l)).
-Proof.
-  induction l as [|x l IH]; simpl; intro H; [constructor|].
-  inversion H as [|? ? Hn Hd]; subst.
-  destruct (f x); simpl; [|now apply IH].
-  constructor; [|now apply IH]. intro Hi. apply Hn.
-  apply in_map_iff in Hi as (y & Ey & Hy). apply filter_In in Hy as [Hy _].
-  apply in_map_iff. now exists y.
 Qed.
 
 Lemma filter_referrers_NoDup l a : NoDup (map fst l) -> NoDup (map fst (filter_referrers l a)).
@@ -1178,7 +1180,7 @@ Proof. rewrite <- concat_app. now rewrite firstn_skipn. Qed.
 Theorem listing_prefix_any_callback :
   forall (L : list item) (cap : nat) (ds : nat -> decision)
          (render : nat -> url -> url -> str) (trailer : nat -> str)
-         (resolve : url -> str -> option url) (c : cfg) (cu : cursor) (npath : nat -> str -> str)
+         (resolve : url -> str -> option url) (c : cfg) (cu : cursor) (npath : nat -> str -> str) (vis : item -> bool)
          (cb_fail : nat -> bool) (path last0 : str) (fuel : nat),
     cursor_ok cu ->
     c_kind c <> KReferrers ->
@@ -1189,15 +1191,15 @@ Theorem listing_prefix_any_callback :
        resolve base (render i base (link_target ds cu npath i base x)) = Some (link_target ds cu npath i base x)) ->
     (forall i, (Z.of_N (d_doc_len (ds i)) <= eff_limit (c_limit c))%Z) ->
     (length (after last0 L) < fuel)%nat ->
-    let t := loop (reg_serve (c_kind c) cu npath L cap ds render trailer) resolve cb_fail c
+    let t := loop (reg_serve (c_kind c) cu npath vis L cap ds render trailer) resolve cb_fail c
                   fuel 0 0 (mkUrl path []) last0 in
-    (t_out t = Done /\ concat (t_pages t) = after last0 L) \/
-    (t_out t = ErrCallback /\ exists rest', after last0 L = concat (t_pages t) ++ rest').
+    (t_out t = Done /\ concat (t_pages t) = filter vis (after last0 L)) \/
+    (t_out t = ErrCallback /\ exists rest', filter vis (after last0 L) = concat (t_pages t) ++ rest').
 Proof.
-  intros L cap ds render trailer resolve c cu npath cb_fail path last0 fuel Hcu K Hnd Hne Hgt Hres Hfit Hfuel.
-  destruct (listing_exactly_once L cap ds render trailer resolve c cu npath path last0 fuel Hcu K Hnd Hne Hgt Hres Hfit Hfuel)
+  intros L cap ds render trailer resolve c cu npath vis cb_fail path last0 fuel Hcu K Hnd Hne Hgt Hres Hfit Hfuel.
+  destruct (listing_exactly_once L cap ds render trailer resolve c cu npath vis path last0 fuel Hcu K Hnd Hne Hgt Hres Hfit Hfuel)
     as (O & P & _ & _).
-  destruct (loop_fail_prefix (reg_serve (c_kind c) cu npath L cap ds render trailer) resolve c cb_fail
+  destruct (loop_fail_prefix (reg_serve (c_kind c) cu npath vis L cap ds render trailer) resolve c cb_fail
               fuel 0%nat 0%nat (mkUrl path []) last0) as [[E _]|(n & m & O1 & _ & P1 & _)].
   - left. cbv zeta. rewrite E. auto.
   - right. cbv zeta. split; [exact O1|]. rewrite P1. rewrite <- P.
@@ -1289,7 +1291,7 @@ Definition wit_ts (cb_fail : nat -> bool) (k : nat) :=
    (same referrer "a" delivered twice) and returned success *)
 Lemma wrap_prefix_refuted :
   exists (cb_fail : nat -> bool),
-    let api := loop (reg_serve KReferrers CLast (fun _ p => p) wit_L 5 wit_ds wit_render (fun _ => [])) wit_resolve
+    let api := loop (reg_serve KReferrers CLast (fun _ p => p) (fun _ => true) wit_L 5 wit_ds wit_render (fun _ => [])) wit_resolve
                     cb_fail wit_cfg 9 0 0 wit_u [] in
     let w := referrers_wrap_prefix RUnknown true api (wit_ts cb_fail) in
     t_out api = ErrCallback /\ w_out w = Done /\ w_state w = RUnsupported /\
@@ -1302,7 +1304,7 @@ Qed.
 (* the same scenario with the fixed wrapper *)
 Lemma wrap_fixed_witness :
   let cb_fail := fun k => (k =? 0)%nat in
-  let api := loop (reg_serve KReferrers CLast (fun _ p => p) wit_L 5 wit_ds wit_render (fun _ => [])) wit_resolve
+  let api := loop (reg_serve KReferrers CLast (fun _ p => p) (fun _ => true) wit_L 5 wit_ds wit_render (fun _ => [])) wit_resolve
                   cb_fail wit_cfg 9 0 0 wit_u [] in
   let w := referrers_wrap RUnknown true api (wit_ts cb_fail) in
   w_out w = ErrCallback /\ w_state w = RUnknown /\ map (map fst) (w_pages w) = [[b "a"]].
@@ -1311,7 +1313,7 @@ Proof. vm_compute. repeat split. Qed.
 (* a registry that is legal per RFC 8288 but puts a rel="first" link-value before the next
    link: the client follows the first link-value, re-reads the first page and never ends *)
 Definition relfirst_serve (i : nat) (rq : url) : response :=
-  let rs := reg_serve KTags CLast (fun _ p => p) wit_L 5 wit_ds wit_render (fun _ => b "; rel=""next""") i rq in
+  let rs := reg_serve KTags CLast (fun _ p => p) (fun _ => true) wit_L 5 wit_ds wit_render (fun _ => b "; rel=""next""") i rq in
   match rs_links rs with
   | [] => rs
   | l :: more =>
@@ -1382,7 +1384,7 @@ Qed.
 Theorem referrers_unknown_with_api :
   forall (L : list item) (cap : nat) (ds : nat -> decision)
          (render : nat -> url -> url -> str) (trailer : nat -> str)
-         (resolve : url -> str -> option url) (c : cfg) (cu : cursor) (npath : nat -> str -> str)
+         (resolve : url -> str -> option url) (c : cfg) (cu : cursor) (npath : nat -> str -> str) (vis : item -> bool)
          (path : str) (fuel : nat) cbu ts,
     cursor_ok cu ->
     c_kind c = KReferrers ->
@@ -1394,14 +1396,14 @@ Theorem referrers_unknown_with_api :
     (forall i, (Z.of_N (d_doc_len (ds i)) <= eff_limit (c_limit c))%Z) ->
     (forall i, qget k_at (d_extra (ds i)) = None) ->
     (length L < fuel)%nat ->
-    let api := loop (reg_serve KReferrers cu npath L cap ds render trailer) resolve (fun _ => false) c
+    let api := loop (reg_serve KReferrers cu npath vis L cap ds render trailer) resolve (fun _ => false) c
                     fuel 0 0 (mkUrl path (referrers_query (c_at c))) [] in
     let w := referrers_wrap RUnknown cbu api ts in
-    w_out w = Done /\ concat (w_pages w) = filter_referrers L (c_at c) /\
+    w_out w = Done /\ concat (w_pages w) = filter_referrers (filter vis L) (c_at c) /\
     w_state w = RSupported /\ w_fell_back w = false.
 Proof.
-  intros L cap ds render trailer resolve c cu npath path fuel cbu ts Hcu K Hnd Hne Hgt Hres Hfit Hex Hfuel.
-  destruct (referrers_exactly_once L cap ds render trailer resolve c cu npath path fuel Hcu K Hnd Hne Hgt Hres Hfit Hex Hfuel)
+  intros L cap ds render trailer resolve c cu npath vis path fuel cbu ts Hcu K Hnd Hne Hgt Hres Hfit Hex Hfuel.
+  destruct (referrers_exactly_once L cap ds render trailer resolve c cu npath vis path fuel Hcu K Hnd Hne Hgt Hres Hfit Hex Hfuel)
     as (O & P & _).
   cbv zeta. unfold referrers_wrap. rewrite O. cbn [w_out w_pages w_state w_fell_back]. auto.
 Qed.
@@ -1460,6 +1462,8 @@ Proof.
 Qed.
 
 (* an opaque cursor: key "token", value "p;" ++ name, next pages under <path>/~p *)
+(* entry "c" is not shown: with one-item pages its page is empty although a link follows *)
+Definition ex_vis (it : item) : bool := negb (str_eqb (fst it) (b "c")).
 Definition ex_cu : cursor := CToken (b "token") (b "p;").
 Definition ex_npath (i : nat) (p : str) : str := b "/v2/r/tags/list/~p".
 Definition ex_render_tok (i : nat) (base tgt : url) : str := qget_s (b "token") (u_query tgt).
